@@ -126,6 +126,8 @@ def build_overlay(workdir, shims, mutant=None):
     # harness packages
     for f in glob.glob(os.path.join(VERIF, "go/vsched/*.go")):
         repl[os.path.join(REPO, "utils/verifhook/vsched", os.path.basename(f))] = f
+    for f in glob.glob(os.path.join(VERIF, "go/vsem/*.go")):
+        repl[os.path.join(REPO, "utils/verifhook/vsem", os.path.basename(f))] = f
     for f in glob.glob(os.path.join(VERIF, "go/vlib/*.go")):
         repl[os.path.join(REPO, "verifdrv/vlib", os.path.basename(f))] = f
     # injected files: go/inj/<relpath>/<file>
